@@ -444,6 +444,10 @@ func (u *Unit) evalCall(env *Env, e *Expr) Val {
 		return &Scalar{T: Ite(Cmp("<=", a, b), a, b), Typ: types.Typ[types.Int]}
 	case "real":
 		return &Scalar{T: ToReal(u.evalTerm(env, args[0])), Typ: types.Typ[types.Float64]}
+	case "NatsConflict":
+		return &Scalar{T: u.catalogueMember(u.evalTerm(env, args[0]), "conflict"), Typ: types.Typ[types.Bool]}
+	case "NatsTransient":
+		return &Scalar{T: u.catalogueMember(u.evalTerm(env, args[0]), "transient"), Typ: types.Typ[types.Bool]}
 	case "inonce":
 		return &Scalar{T: BoolLit(u.onceDepth > 0), Typ: types.Typ[types.Bool]}
 	case "inspawn":
